@@ -9,10 +9,16 @@ Part 2 (E3): LocalScheduleInterpreter.eval over all small schedules of the state
 Part 3 (E3 over configurations, one virtual-time execution each): a LocalScheduleObject inside an
         Application under the virtual clock, several virtual days across entry into and exit from its
         effective period; present value probed and compared; the interpreter task must stay armed.
+Part 4 (as part 3, in local time zones with daylight saving): the worker sets TZ to a POSIX rule (tzset, restored
+        afterwards), the run covers the days around a clock change (the 23-hour and the 25-hour day) with entries placed
+        before, at the start of, inside, at the end of and after the changed interval; at every probed instant the present
+        value must be the one the reference interpreter gives for the civil date and time the local clock shows at that
+        instant (bv.refs.schedref.TzRule, an own implementation of the POSIX rule, cross-checked against time.localtime).
 """
 import calendar as _cal
 import datetime
 import itertools
+import os
 import time
 
 import bv  # noqa: F401
@@ -49,7 +55,15 @@ RULE = ("part1: every (calendar date of the listed years) x (pattern): Date patt
         "and every effective-period class {specific,open}^2 x dates around both edges; evaluations count "
         "(schedule, date, instant) triples, distinct counts (schedule, date set) keys, at the three-exception level exception "
         "triples.  part3: every (body, effective-period class, anchor date, start instant) runs "
-        "6 virtual days, 10 probes per day.")
+        "6 virtual days, 10 probes per day.  part4: every (zone, clock change of the year, effective-period class relative to "
+        "the change day {open, enters on it, ends on it, that day only, starts the day after}, body, start instant {two days "
+        "before 00:00, the day before 13:27:41.50}); body = {weekly only, exception dated on the change day over a weekly list, "
+        "every-day exception without weekly list, two-day exception over a second weekly list} x time-value list over the five "
+        "times {30 min before, start of, middle of, end of, 30 min after the skipped/repeated civil interval}: every ascending "
+        "list of <=2 (T: <=3) of them x value/Null per entry, plus all five; run to the end of the second day after the change; "
+        "probed at every instant at which the local clock shows 00:00, 00:01, 12:00, 23:59:59, one of the five times or an "
+        "entry time, one minute before / after each (no instant for a skipped reading, two for a repeated one), at the "
+        "instant of the change and one second before / after it.")
 ASSUMPTIONS = [
     "schedule objects are built the way tests/test_local builds them (time values hold Integer/Null atomics, times and "
     "dates are 4-tuples, WeekNDay is the 3-octet string a decoded CalendarEntry holds); values that arrive as AnyAtomic "
@@ -62,15 +76,30 @@ ASSUMPTIONS = [
     "partially wildcarded range ends are not enumerated (not allowed by the standard)",
     "outside the effective period no value is prescribed: only the next-transition report and the liveness of the timer "
     "are judged there",
-    "TZ=UTC, no daylight saving; timer-driven runs use dates after 1970; single thread; the only clock is bacpypes.task._time",
+    "parts 1-3 run with TZ=UTC; timer-driven runs use dates after 1970; single thread; the only clock is bacpypes.task._time",
+    "part 4, rule applied around a clock change: the prescribed value at an instant is the clause-12.24.4 value for the civil "
+    "date and time the local clock shows at that instant.  Readings inside a skipped interval do not exist and are not judged; "
+    "an entry whose time lies inside it is due at the instant of the jump (the clock then shows a later time).  In a repeated "
+    "interval the first pass is judged by its civil time; in the second pass two readings are admitted and counted separately "
+    "(outcomes p4:second-pass:...): 'civil' (the value for the civil time shown) and 'monotonic' (an entry executed once that "
+    "day stays executed: the value for the latest civil time shown so far on that date); they differ only between the start "
+    "of the second pass and the last entry inside the interval, and BACnet does not choose between them",
+    "part 4: local time is the platform's (TZ as a POSIX rule + tzset); a run never starts inside a skipped or repeated "
+    "interval; glibc's mktime resolves a repeated local time by the offset of its previous result, every run starts with the "
+    "history of a process that has been running since the start instant",
     "one value type (Integer); schedules with neither weeklySchedule nor exceptionSchedule are a configuration error by "
     "the standard and are not enumerated",
 ]
 BOUNDS = {
     "quick": "part1 years 1900,1999,2000,2023,2024,2100,2154 (2 557 dates); part2 <=1 exception over all 27 lists, 2 exceptions over "
-             "the 19 lists of <=2 entries with 10 of the 20 weekly alternatives; part3 4 anchor dates x 8 effective periods x 39 bodies x 2 start instants, 6 virtual days",
+             "the 19 lists of <=2 entries with 10 of the 20 weekly alternatives; part3 4 anchor dates x 8 effective periods x 39 bodies x 2 start instants, 6 virtual days; "
+             "part4 zones CET-1CEST,M3.5.0,M10.5.0/3 and EST5EDT,M3.2.0,M11.1.0, both clock changes of 2024, 5 effective periods x "
+             "212 bodies (53 lists) x 2 start instants, 4-5 virtual days",
     "thorough": "part1 every date 1900..2154 (93 137 dates); part2 <=2 exceptions over all 27 lists, 3 exceptions (at most one of them not in force) over the "
-                "19 lists of <=2 entries with 5 of the 20 weekly alternatives; part3 10 anchor dates x 8 effective periods x larger body set",
+                "19 lists of <=2 entries with 5 of the 20 weekly alternatives; part3 10 anchor dates x 8 effective periods x larger body set; "
+                "part4 the two zones of quick + <-03>3<-02>,M10.3.0/0,M2.3.0/0 (changes at midnight, southern hemisphere) + "
+                "<+1030>-10:30<+11>-11,M10.1.0,M4.1.0 (half-hour shift), both clock changes of 2024 and 2038, 5 effective periods x "
+                "532 bodies (133 lists) x 2 start instants",
 }
 
 ANY = 255
@@ -1013,6 +1042,316 @@ def p3_shard(item, deadline):
     return acc
 
 
+# ----------------------------------------------------------------------------- part 4: timer-driven, across clock changes
+
+# POSIX TZ rules (no tz database needed).  The worker sets TZ + tzset() for one run and restores what it found.
+Z_CET = "CET-1CEST,M3.5.0,M10.5.0/3"                 # +1 h at 02:00 (last Sunday of March), -1 h at 03:00 (last Sunday of October)
+Z_US = "EST5EDT,M3.2.0,M11.1.0"                      # west of Greenwich, both changes at 02:00 local
+Z_MIDNIGHT = "<-03>3<-02>,M10.3.0/0,M2.3.0/0"        # southern hemisphere, changes at midnight: 00:00 is skipped / 23:00 repeats
+Z_HALF = "<+1030>-10:30<+11>-11,M10.1.0,M4.1.0"      # half-hour shift
+Z_ZONES = {"quick": (Z_CET, Z_US), "thorough": (Z_CET, Z_US, Z_MIDNIGHT, Z_HALF)}
+Z_YEARS = {"quick": (2024,), "thorough": (2024, 2038)}
+Z_DAYS_AFTER = 2                                      # the run ends at the end of the second day after the change
+
+
+class local_zone(object):
+    """with local_zone(spec): the process's local time zone is spec; restored on exit."""
+
+    def __init__(self, spec):
+        self.spec = spec
+
+    def __enter__(self):
+        self.saved = os.environ.get("TZ")
+        os.environ["TZ"] = self.spec
+        time.tzset()
+        return ref.TzRule(self.spec)
+
+    def __exit__(self, *exc):
+        if self.saved is None:
+            os.environ.pop("TZ", None)
+        else:
+            os.environ["TZ"] = self.saved
+        time.tzset()
+        return False
+
+
+def tod(secs):
+    secs %= 86400
+    return (secs // 3600, secs % 3600 // 60, secs % 60, 0)
+
+
+def p4_change(z, year, which):
+    """The clock change number `which` of civil year `year`: dict with the instant, the changed civil interval
+    [lo, hi) (skipped or repeated readings), the date of lo and the five entry times placed around it."""
+    j, before, after = z.jumps(year)[which]
+    a, b = z.civil(j, utcoff=before), z.civil(j, utcoff=after)
+    lo, hi = min(a, b), max(a, b)
+    g = abs(after - before)
+    s_lo = lo[1][0] * 3600 + lo[1][1] * 60 + lo[1][2]
+    times = (tod(s_lo - 1800), tod(s_lo), tod(s_lo + g // 2), tod(s_lo + g), tod(s_lo + g + 1800))
+    return {"instant": j, "kind": "skipped-interval" if after > before else "repeated-interval", "lo": lo, "hi": hi,
+            "day": lo[0], "times": times, "shift": g}
+
+
+def p4_shapes(times, tier):
+    """Time-value list shapes over the five times around the change: every ascending list of <=2 (T: <=3) of them x Null
+    flags, and the list of all five (all values / alternating Null)."""
+    ts = sorted(set(times))
+    out = [()]
+    for k in (1, 2) if tier == "quick" else (1, 2, 3):
+        for sub in itertools.combinations(ts, k):
+            for flags in itertools.product((False, True), repeat=k):
+                out.append(tuple(zip(sub, flags)))
+    out.append(tuple((t, False) for t in ts))
+    out.append(tuple((t, i % 2 == 1) for i, t in enumerate(ts)))
+    return out
+
+
+def p4_bodies(c, times, tier):
+    shapes = p4_shapes(times, tier)
+    n = len(shapes)
+    day = datetime.timedelta(days=1)
+    for si, shape in enumerate(shapes):
+        yield {"weekly": tuple(fill(shape, 10 * (i + 1)) for i in range(7)), "exceptions": None, "default": 0}
+        yield {"weekly": tuple((((0, 0, 0, 0), 10 * (i + 1) + 1),) for i in range(7)),
+               "exceptions": ({"period": ("date", dpat(c)), "tv": fill(shape, 100), "prio": 5},), "default": 0}
+        yield {"weekly": None, "exceptions": ({"period": ("wnd", (ANY, ANY, ANY)), "tv": fill(shape, 100), "prio": 16},), "default": 0}
+        yield {"weekly": tuple(fill(shapes[(si * 7 + 3) % n], 10 * (i + 1)) for i in range(7)),
+               "exceptions": ({"period": ("range", (dpat(c - day), dpat(c))), "tv": fill(shape, 200), "prio": 3},), "default": 0}
+
+
+def p4_periods(c):
+    day = datetime.timedelta(days=1)
+    return [
+        ("open-both", (OPEN, OPEN)),
+        ("enters-on-change-day", (dpat(c), dpat(c + day))),
+        ("ends-on-change-day", (dpat(c - 30 * day), dpat(c))),
+        ("change-day-only", (dpat(c, False), dpat(c, False))),
+        ("starts-day-after-change", (dpat(c + day), OPEN)),
+    ]
+
+
+def p4_starts(c):
+    day = datetime.timedelta(days=1)
+    return [(c - 2 * day, (0, 0, 0, 0)), (c - day, (13, 27, 41, 50))]
+
+
+def p4_configs(tier):
+    for spec in Z_ZONES[tier]:
+        z = ref.TzRule(spec)
+        for year in Z_YEARS[tier]:
+            for which in (0, 1):
+                ch = p4_change(z, year, which)
+                c = ch["day"]
+                for (pname, period) in p4_periods(c):
+                    for body in p4_bodies(c, ch["times"], tier):
+                        for (sd, st) in p4_starts(c):
+                            desc = dict(body)
+                            desc["period"] = period
+                            yield (spec, year, which, desc, ((sd.year, sd.month, sd.day), st), pname)
+
+
+def p4_probe_instants(z, desc, ch, start_x, dates):
+    """Every instant at which the local clock shows one of the probe times on one of the dates (none for a skipped
+    reading, two for a repeated one), the instant of the change, one second before and after it."""
+    secs = {0, 60, 12 * 3600, 86399}
+    for t in tuple(ch["times"]) + tuple(ref.all_times(desc)):
+        s = t[0] * 3600 + t[1] * 60 + t[2]
+        secs.update(((s - 60) % 86400, s, (s + 60) % 86400))
+    xs = {ch["instant"] - 1.0, ch["instant"], ch["instant"] + 1.0}
+    for d in dates:
+        for s in secs:
+            xs.update(z.instants_of(d, tod(s)))
+    return sorted(x for x in xs if x >= start_x)
+
+
+def p4_changes_of_reference(z, desc, dates):
+    """[(instant, date, time)]: every instant at which the calendar may dictate a new state: the first instant at which
+    the local clock shows midnight / an entry time, or has jumped over it."""
+    out = []
+    for d in dates:
+        for tt in ref.all_times(desc):
+            out.append((z.first_at_or_after(d, tt), d, tt))
+    return sorted(out)
+
+
+def p4_where(ch, d, tt):
+    """Position of the civil reading (d, tt) relative to the changed interval (root-cause naming only)."""
+    x = (d, tuple(tt))
+    what = ch["kind"]
+    if d != ch["lo"][0] and d != ch["hi"][0]:
+        n = (d - ch["day"]).days
+        return "%d-day%s-%s-the-change" % (abs(n), "" if abs(n) == 1 else "s", "after" if n > 0 else "before")
+    if x < ch["lo"]:
+        return "before-%s" % what
+    if x == ch["hi"]:
+        return "at-end-of-%s" % what
+    if x < ch["hi"]:
+        return "inside-%s" % what
+    return "after-%s" % what
+
+
+def p4_due_where(ch, changes, due):
+    """Root-cause naming: where the change that is due lies; when several readings fall on the same instant (a jump over
+    entry times), a reading inside the skipped interval names it."""
+    same = [p4_where(ch, r[1], r[2]) for r in changes if r[0] == due[0]]
+    for w in same:
+        if w.startswith("inside-"):
+            return w
+    return p4_where(ch, due[1], due[2])
+
+
+def p4_run(spec, year, which, desc, start):
+    """One execution in local zone `spec`.  Returns (observations, verdict, swallowed, notes)."""
+    desc = tup(desc)
+    (sy, sm, sdd), st = start
+    with local_zone(spec) as z:
+        ch = p4_change(z, year, which)
+        c = ch["day"]
+        sd = datetime.date(sy, sm, sdd)
+        start_x = z.instants_of(sd, tuple(st))
+        if len(start_x) != 1:
+            raise HarnessError("C20 part4: the start reading %s %r is skipped or repeated in %s" % (sd, st, spec))
+        start_x = start_x[0]
+        last_d = c + datetime.timedelta(days=Z_DAYS_AFTER)
+        dates = [sd + datetime.timedelta(days=i) for i in range((last_d - sd).days + 1)]
+        probes = p4_probe_instants(z, desc, ch, start_x, dates)
+        changes = p4_changes_of_reference(z, desc, dates)
+        # glibc's mktime resolves a repeated reading by the offset of its previous result (a static variable that
+        # survives from run to run): give it the history of a process that has been running since the start instant
+        time.mktime(time.localtime(start_x))
+        vclock.reset(start_x)
+        app = get_app(fresh=True)
+        _, so, cals = build(desc, with_app=False)
+        for cobj in cals:
+            app.add_object(cobj)
+        app.add_object(so)
+        obs = []
+        notes = []
+        first_bad = None
+        livelock = None
+        hist = []                  # the distinct values the calendar has dictated so far, in order
+        try:
+            vclock.settle()
+            for x in probes:
+                vclock.run_until(x, max_steps=MAX_TIMER_STEPS)
+                d, t = z.civil(x)
+                lt = time.localtime(x)
+                if (lt.tm_year, lt.tm_mon, lt.tm_mday, lt.tm_hour, lt.tm_min, lt.tm_sec, lt.tm_gmtoff) != \
+                        (d.year, d.month, d.day, t[0], t[1], t[2], z.utcoff(x)):
+                    raise HarnessError("C20 part4: the reference's local clock and the platform's disagree at %r in %s: %r / %r"
+                                       % (x, spec, (d, t), tuple(lt)))
+                pv = so.presentValue
+                pv = None if isinstance(pv, Null) else getattr(pv, "value", pv)
+                armed = bool(so._task.isScheduled)
+                act, want = ref.present_value(desc, d, t)
+                admitted = [want]
+                lim = z.second_pass_limit(x)
+                if act and lim is not None:
+                    mono = ref.present_value(desc, lim[0], lim[1])[1]
+                    if mono != want:
+                        admitted.append(mono)
+                        notes.append("second-pass:readings-differ:shown=%s" % ("civil" if pv == want else "monotonic" if pv == mono else "neither"))
+                obs.append((x, str(d), t, pv, armed, act, want))
+                if act and (not hist or hist[-1] != want):
+                    hist.append(want)
+                if act and pv not in admitted and first_bad is None:
+                    due = [r for r in changes if r[0] <= x]
+                    due = due[-1] if due else None
+                    stale = len(hist) >= 2 and pv == hist[-2]
+                    first_bad = {"at": (x, str(d), t), "present_value": pv, "expected": want, "admitted": admitted,
+                                 "how": "stale" if stale else ("initial-value" if pv == -1 else "wrong"),
+                                 "due_since": None if due is None else (due[0], str(due[1]), due[2]),
+                                 "due_where": "start-of-run" if due is None else p4_due_where(ch, changes, due),
+                                 "late_by_s": None if due is None else x - due[0],
+                                 "source_expected": source_of(desc, d, t, want), "armed": armed}
+        except vclock.Livelock as err:
+            livelock = str(err)
+        swallowed = sorted(set(m for (_, m) in vclock.swallowed))
+        sw = "no-exception"
+        if swallowed:
+            sw = swallowed[0].replace("an error has occurred: ", "").replace(" ", "-")[:60]
+        kind = ch["kind"]
+        armed_end = bool(so._task.isScheduled)
+        when_end = so._task.taskTime if armed_end else None
+        verdict = None
+        if livelock is not None:
+            verdict = ("timer:clock-change:%s:livelock:%s" % (kind, sw), {"livelock": livelock})
+        elif first_bad is not None:
+            if not first_bad["armed"]:
+                verdict = ("timer:clock-change:%s:present-value-not-updated:interpreter-not-armed:%s" % (kind, sw), first_bad)
+            else:
+                verdict = ("timer:clock-change:%s:present-value-%s:due=%s:%s" % (kind, first_bad["how"], first_bad["due_where"], sw), first_bad)
+        elif not armed_end:
+            verdict = ("timer:clock-change:%s:interpreter-not-armed-at-end:%s" % (kind, sw), {"armed": False})
+        else:
+            last = (last_d, (23, 59, 59, 0))
+            nxt = ref.first_change(desc, last, horizon_days=3)
+            if nxt is not None and when_end is not None and when_end > z.first_at_or_after(nxt[0], nxt[1]) + 1e-6:
+                verdict = ("timer:clock-change:%s:armed-later-than-next-change:%s" % (kind, sw),
+                           {"armed_for": when_end, "next_change": (str(nxt[0]), nxt[1]),
+                            "next_change_epoch": z.first_at_or_after(nxt[0], nxt[1])})
+        if verdict is not None:
+            verdict[1].update({"swallowed": swallowed, "armed_at_end": armed_end, "zone": spec, "change": kind,
+                               "change_instant": ch["instant"], "changed_interval": (str(ch["lo"][0]), ch["lo"][1], str(ch["hi"][0]), ch["hi"][1])})
+    return obs, verdict, swallowed, notes
+
+
+def p4_shard(item, deadline):
+    acc = Acc()
+    tz_before = (os.environ.get("TZ"), time.tzname)
+    for n, (spec, year, which, desc, start, pname) in enumerate(item):
+        if time.time() > deadline:
+            acc.cap("part4: deadline")
+            break
+        obs, verdict, swallowed, notes = p4_run(spec, year, which, desc, start)
+        if n == 0:
+            obs2, verdict2, _, _ = p4_run(spec, year, which, desc, start)
+            if obs2 != obs or (verdict is None) != (verdict2 is None):
+                raise HarnessError("C20 part4: the same configuration ran twice with different observations")
+        acc.case(("p4", spec, year, which, repr(desc), start))
+        acc.traces += 1
+        acc.transitions += len(obs)
+        acc.add_info("part4 runs", 1)
+        acc.add_info("part4 probes", len(obs))
+        acc.add_info("part4 probes compared (schedule active)", sum(1 for o in obs if o[5]))
+        for m in swallowed:
+            acc.swallowed[m] += 1
+        kind = "skipped" if which_kind(spec, year, which) else "repeated"
+        acc.outcome("p4:%s:%s:%s" % (kind, pname, "ok" if verdict is None else verdict[0].split(":")[3]))
+        for m in notes:
+            acc.outcome("p4:" + m)
+            acc.add_info("part4 " + m, 1)
+        if verdict is not None:
+            sig, detail = verdict
+            if acc.info.get("part4 failing runs repeated", 0) < 3:
+                acc.add_info("part4 failing runs repeated", 1)
+                obs3, verdict3, _, _ = p4_run(spec, year, which, desc, start)
+                if obs3 != obs or verdict3 is None or verdict3[0] != sig:
+                    raise HarnessError("C20 part4: a failing configuration did not fail the same way when repeated")
+            detail = dict(detail)
+            detail.update({"schedule": desc, "start": start, "period_kind": pname})
+            acc.fail(sig, detail, {"part": 4, "tz": spec, "year": year, "which": which, "desc": desc, "start": start})
+        elif n == 0:
+            acc.sample({"part": 4, "zone": spec, "schedule": desc, "start": start,
+                        "first_probes": [o for o in obs if o[5]][:8]})
+    if (os.environ.get("TZ"), time.tzname) != tz_before:
+        raise HarnessError("C20 part4: the time zone of the process was not restored")
+    return acc
+
+
+_KIND = {}
+
+
+def which_kind(spec, year, which):
+    """True for a change that skips civil readings (clock set forward)."""
+    k = (spec, year, which)
+    if k not in _KIND:
+        j, before, after = ref.TzRule(spec).jumps(year)[which]
+        _KIND[k] = after > before
+    return _KIND[k]
+
+
 # ----------------------------------------------------------------------------- entry points
 
 def _dl(dates):
@@ -1029,9 +1368,20 @@ def run(tier, seed, deadline):
 
     # ---- part 3 first: few, and the liveness part of the statement
     cfgs = list(p3_configs(tier))
-    run_shards(p3_shard, chunks(cfgs, 64), t_start + 0.30 * span, into=acc)
+    run_shards(p3_shard, chunks(cfgs, 64), t_start + 0.20 * span, into=acc)
     acc.info["part3 configurations"] = len(cfgs)
     acc.info["part3 wall_s"] = round(time.time() - t_start, 1)
+
+    # ---- part 4: the same kind of run in local time zones with daylight saving, across both clock changes
+    t4 = time.time()
+    zone_found = (os.environ.get("TZ"), time.tzname, time.localtime(0).tm_gmtoff)
+    cfgs = list(p4_configs(tier))
+    run_shards(p4_shard, chunks(cfgs, 64), t_start + 0.40 * span, into=acc)
+    acc.info["part4 configurations"] = len(cfgs)
+    acc.info["part4 zones"] = list(Z_ZONES[tier])
+    acc.info["part4 wall_s"] = round(time.time() - t4, 1)
+    if (os.environ.get("TZ"), time.tzname, time.localtime(0).tm_gmtoff) != zone_found:
+        raise HarnessError("C20: the time zone of the process was not restored after part 4")
 
     # ---- part 1
     t1 = time.time()
@@ -1041,7 +1391,7 @@ def run(tier, seed, deadline):
         shards = chunks(months, len(months))
     else:
         shards = [months[i:i + 6] for i in range(0, len(months), 6)]
-    run_shards(p1_shard, shards, t_start + 0.50 * span, into=acc)
+    run_shards(p1_shard, shards, t_start + 0.60 * span, into=acc)
     acc.info["part1 wall_s"] = round(time.time() - t1, 1)
     # ---- part 2 with the remaining budget
     t2 = time.time()
@@ -1101,4 +1451,13 @@ def replay(case):
         obs, verdict, swallowed = p3_run(case["desc"], datetime.date(*case["day0"]), tuple(case["start"]))
         lines = ["%s %s pv=%r armed=%r active=%r expected=%r" % o for o in obs if o[4]][:12]
         return verdict is None, "verdict=%r\nswallowed=%r\n%s" % (verdict, swallowed, "\n".join(lines))
+    if part == 4:
+        obs, verdict, swallowed, notes = p4_run(case["tz"], case["year"], case["which"], case["desc"],
+                                                (tuple(case["start"][0]), tuple(case["start"][1])))
+        lines = ["%.2f local %s %s pv=%r armed=%r active=%r expected=%r" % o for o in obs if o[5]]
+        if verdict is not None and "at" in verdict[1]:
+            k = [i for i, o in enumerate(obs) if o[0] == verdict[1]["at"][0]]
+            k = k[0] if k else 0
+            lines = ["%.2f local %s %s pv=%r armed=%r active=%r expected=%r" % o for o in obs[max(0, k - 6):k + 6]]
+        return verdict is None, "zone=%s\nverdict=%r\nswallowed=%r\n%s" % (case["tz"], verdict, swallowed, "\n".join(lines[:14]))
     return False, "unknown part"
